@@ -91,15 +91,23 @@ Proof.
   - destruct x as [|q]; [destruct t; reflexivity|]. repeat (destruct q as [q|q|]; try (destruct t; reflexivity)). now elim NX.
 Qed.
 
+(* the same with the test of the LF-hack fix (P: the text before ends with a CR) *)
+Lemma lf_hack_id_cr (P : bool) (b : bytes) : beq b [10] = false -> (match b with [10] => if P then b else [13; 10] | _ => b end) = b.
+Proof.
+  intros H. destruct b as [|x t]; [reflexivity|]. destruct (N.eq_dec x 10) as [->|NX].
+  - destruct t; [cbn in H; discriminate|reflexivity].
+  - destruct x as [|q]; [destruct t; reflexivity|]. repeat (destruct q as [q|q|]; try (destruct t; reflexivity)). now elim NX.
+Qed.
+
 (* the (text, want-CDATA) pair of the characters callback when the LF hack does not fire *)
-Lemma hack_pair d (b : bytes) : (dt_vobject d && beq b [10]) = false ->
+Lemma hack_pair d (P : bool) (b : bytes) : (dt_vobject d && beq b [10]) = false ->
   exists w, (match d with
-             | DT_DIRECTORY_VCARD | DT_VCALENDAR | DT_VCARD | DT_VOBJECT => (match b with [10] => [13; 10] | _ => b end, true)
+             | DT_DIRECTORY_VCARD | DT_VCALENDAR | DT_VCARD | DT_VOBJECT => (match b with [10] => if P then b else [13; 10] | _ => b end, true)
              | DT_CLEAR => (b, true)
              | _ => (b, false)
              end) = (b, w).
 Proof.
-  intros H. destruct d; cbn in H; try (eexists; reflexivity); rewrite (lf_hack_id b H); eexists; reflexivity.
+  intros H. destruct d; cbn in H; try (eexists; reflexivity); rewrite (lf_hack_id_cr P b H); eexists; reflexivity.
 Qed.
 
 Section Inv.
@@ -269,16 +277,17 @@ Section Inv.
         * (* directly below an element *)
           destruct (dt_plain d) eqn:DP.
           -- assert (X : (match d with
-                          | DT_DIRECTORY_VCARD | DT_VCALENDAR | DT_VCARD | DT_VOBJECT => (match b with [10] => [13; 10] | _ => b end, true)
+                          | DT_DIRECTORY_VCARD | DT_VCALENDAR | DT_VCARD | DT_VOBJECT =>
+                            (match b with [10] => if prev_ends_cr (mk_frame (FElt tg at0 ct) rdone :: up) then b else [13; 10] | _ => b end, true)
                           | DT_CLEAR => (b, true)
                           | _ => (b, false)
                           end) = (b, false)) by (destruct d; try discriminate; reflexivity).
              rewrite X. cbn [andb]. rewrite ?S, NB. apply TXT; auto.
           -- cbn [orb] in TC. apply andb_true_iff in TC. destruct TC as [FK NV]. apply negb_true_iff in NV.
-             destruct (hack_pair d b NV) as [w ->]. rewrite FK. cbn [negb]. rewrite andb_false_r. rewrite ?S, NB. apply TXT; auto.
+             match goal with |- context [if ?P then b else [13; 10]] => destruct (hack_pair d P b NV) as [w ->] end. rewrite FK. cbn [negb]. rewrite andb_false_r. rewrite ?S, NB. apply TXT; auto.
         * (* inside a CDATA node *)
           apply negb_true_iff in TC.
-          destruct (hack_pair d b TC) as [w ->]. cbn [is_cdata_frame f_kind negb andb]. rewrite andb_false_r. cbn [andb]. rewrite ?S, NB. apply TXT; auto.
+          match goal with |- context [if ?P then b else [13; 10]] => destruct (hack_pair d P b TC) as [w ->] end. cbn [is_cdata_frame f_kind negb andb]. rewrite andb_false_r. cbn [andb]. rewrite ?S, NB. apply TXT; auto.
     - (* CDATA node *)
       rewrite kids_fix in HC. apply andb_true_iff in HC. destruct HC as [NBk KC]. apply negb_true_iff in NBk.
       destruct HI as ((E & K & LG) & S & P & KP). rewrite ?NBk.
